@@ -21,7 +21,9 @@ RULE = (
     "curve orders and random n<=600 bits with s in floor(n/2)+[-3,3], "
     "floor(n/2)+-2^j for every j, 1, 2, n-2, n-1, uniform.  Non-trivial = "
     "|s-n/2| < 2^(bitlen(n)-50) (inside the float rounding band), or s<=2, or "
-    "s>=n-2, or n even with s=n/2, or a key-level case; distinct by (n,r,s[,key,e])."
+    "s>=n-2, or n even with s=n/2, or a key-level case; distinct by (n,r,s[,key,e]). The encoders are also run "
+    "in two threads for two different orders under the harness scheduler with a preemption at every line of "
+    "ecdsa.util (they are pure functions: results must equal the sequential ones)."
 )
 ASSUMPTIONS = [
     "order n >= 2 and 0 <= r < n, 1 <= s <= n-1 (the encoders' domain)",
@@ -138,6 +140,75 @@ def st_order_case():
                      st.integers(0, 1 << 600))
 
 
+def interleaved(ctx, stride):
+    """the encoders are pure functions of (r, s, order): two threads encoding for different orders, with a
+    context switch at every line of ecdsa.util, must get the sequential results (no hidden shared state)"""
+    from .. import sched as S
+    import ecdsa.util as UM
+    codes = S.code_objects(UM.sigencode_string_canonize, UM.sigencode_strings_canonize, UM.sigencode_der_canonize,
+                           UM.sigencode_string, UM.sigencode_strings, UM.sigencode_der, UM.number_to_string,
+                           UM.orderlen)
+    for nm in dir(UM):
+        f = getattr(UM, nm)
+        if callable(f) and getattr(f, "__module__", "") == "ecdsa.util" and hasattr(f, "__code__") \
+                and f.__code__ not in codes:
+            codes.append(f.__code__)
+    n1, n2 = gen.named("NIST256p").n, gen.named("NIST384p").n
+    jobs = {
+        "a": lambda: [UM.sigencode_string_canonize(5, n1 // 2 + 7, n1), UM.sigencode_der_canonize(5, n1 - 3, n1)],
+        "b": lambda: [UM.sigencode_string_canonize(9, n1 // 2 + 7, n2), UM.sigencode_strings_canonize(9, n2 - 2, n2)],
+    }
+    want = {k: f() for k, f in jobs.items()}
+    with S.Monitor(S.Sched(), codes, lines=True) as mon:
+        def run(plan):
+            sc = S.Sched()
+            mon.sched = sc
+            res = {}
+            for key in ("a", "b"):
+                sc.spawn(lambda t, key=key: res.__setitem__(key, jobs[key]()), key)
+            seg = {"i": 0}
+
+            def chooser(sc_, runnable, step):
+                while True:
+                    if seg["i"] >= len(plan):
+                        sc_.quiet = True
+                        return 0
+                    ti, cnt = plan[seg["i"]]
+                    seg["i"] += 1
+                    t = sc_.threads[ti]
+                    if t.done or cnt == 0:
+                        continue
+                    if cnt is None:
+                        sc_.quiet = True
+                    else:
+                        sc_.quiet = False
+                        t.skip = cnt - 1
+                    return runnable.index(t)
+            sc.run(chooser)
+            return res, sc
+        _, sc0 = run([[0, 10 ** 9]])
+        na = sc0.threads[0].switches
+        _, sc1 = run([[1, 10 ** 9]])
+        nb = sc1.threads[1].switches
+        if na == 0 or nb == 0:
+            raise RuntimeError("no switch points recorded in ecdsa.util")
+        for first, cnt in ((0, na), (1, nb)):
+            for i in range(0, cnt + 1, stride):
+                for j in (None, 3, 9):
+                    plan = [[first, i], [1 - first, j], [first, None], [1 - first, None]]
+                    ctx.ev()
+                    res, sc = run(plan)
+                    case = {"kind": "interleaved", "plan": plan}
+                    for t in sc.threads:
+                        if t.exc is not None:
+                            ctx.fail("interleaved/exception/%s" % type(t.exc).__name__, case, repr(t.exc))
+                    for key in ("a", "b"):
+                        if key in res and res[key] != want[key]:
+                            ctx.fail("interleaved/wrong-result", case, "thread %s got %r, sequential %r" % (key, res[key], want[key]))
+                    ctx.nontrivial_enum()
+    ctx.sample({"kind": "interleaved", "switch_points": [na, nb], "stride": stride})
+
+
 def units(tier, seed):
     top = 700 if tier == "quick" else 2600
     out = [("small-orders", {"lo": 2, "hi": top, "shard": i, "nshards": 12}) for i in range(12)]
@@ -145,6 +216,7 @@ def units(tier, seed):
     out.append(("random-orders", {"examples": 3000 if tier == "quick" else 60000}))
     out.append(("key-toy", {"curves": ["t23a", "t13"] if tier == "quick" else ["t23a", "t13", "t29", "t61", "t127"]}))
     out.append(("key-named", {"per_curve": 6 if tier == "quick" else 60}))
+    out.append(("interleaved", {"stride": 1}))
     return out
 
 
@@ -182,6 +254,8 @@ def run_unit(ctx, name, **kw):
                             check_key(ctx, {"kind": "key", "curve": cname, "Q": list(Q),
                                             "digest": dig.hex(), "r": r, "s": s})
             ctx.sample({"kind": "key", "curve": cname, "all_r_s": True})
+    elif name == "interleaved":
+        interleaved(ctx, kw["stride"])
     elif name == "key-named":
         from hypothesis import strategies as st2
 
@@ -208,7 +282,9 @@ def run_unit(ctx, name, **kw):
 
 
 def replay(ctx, case):
-    if case.get("kind") == "key":
+    if case.get("kind") == "interleaved":
+        interleaved(ctx, 1)
+    elif case.get("kind") == "key":
         check_key(ctx, case)
     else:
         check_enc(ctx, case["n"], case["r"], case["s"])
